@@ -36,6 +36,8 @@ pub struct Profile {
     pub p_invalid_props: f64,
     pub p_broker_disconnect: f64,
     pub p_no_pingresp: f64,
+    pub p_delay: f64,
+    pub p_setid: f64,
     pub rm: Vec<u16>,
     pub maxpkt: Vec<u32>,
     pub maxqos: Vec<u8>,
@@ -78,6 +80,8 @@ impl Default for Profile {
             p_invalid_props: 0.0,
             p_broker_disconnect: 0.01,
             p_no_pingresp: 0.2,
+            p_delay: 0.0,
+            p_setid: 0.0,
             rm: vec![0, 0, 1, 2, 3, 8, 20],
             maxpkt: vec![0],
             maxqos: vec![2, 2, 2, 1, 0],
@@ -114,6 +118,8 @@ struct Broker {
     closed: bool,
     sent_acks: Vec<Vec<u8>>,
     msg_n: u32,
+    /// virtual time before which nothing queued is delivered (slow answers)
+    hold_until: u64,
 }
 
 pub struct RandomDirector {
@@ -138,6 +144,7 @@ pub struct RandomDirector {
     downgrade: bool,
     force_drop: bool,
     reconnected_once: bool,
+    now_ms: u64,
     /// probes run before the benign drain: PUBREL sweep (reveals the pending inbound QoS 2
     /// identifiers) and a QoS 1 publish burst until refusal (reveals the send quota)
     pub probe: bool,
@@ -184,6 +191,7 @@ impl RandomDirector {
             downgrade,
             force_drop: false,
             reconnected_once: false,
+            now_ms: 0,
             probe: false,
             probe_step: 0,
             burst_done: false,
@@ -214,6 +222,7 @@ impl RandomDirector {
             // fresh broker session: the client restarts its identifiers, so duplicates of old
             // acknowledgements could name identifiers that are in use again
             self.broker.sent_acks.clear();
+            self.broker.next_id = 1;
             self.broker.out_q1.clear();
             self.broker.out_q2_pub.clear();
             self.broker.out_q2_rel.clear();
@@ -349,6 +358,17 @@ impl RandomDirector {
                 }
                 12 => {
                     if self.benign || !self.chance(self.p.p_no_pingresp) {
+                        if !self.benign && self.p.time && self.chance(self.p.p_delay) {
+                            // a slow PINGRESP: early, beyond the client's ping lead, or close to the
+                            // round-trip bound
+                            let l = match self.rng.gen_range(0..4) {
+                                0 => self.rng.gen_range(1..600),
+                                1 => self.rng.gen_range(600..3200),
+                                2 => self.rng.gen_range(3200..4990),
+                                _ => self.rng.gen_range(4990..5010),
+                            };
+                            self.broker.hold_until = self.broker.hold_until.max(self.now_ms + l);
+                        }
                         self.broker.outq.push_back(rc::pingresp());
                     }
                 }
@@ -508,6 +528,7 @@ impl RandomDirector {
                     props,
                     corr,
                     payload_fails: false,
+                    corr_first: self.chance(0.5),
                 }
             }
             3 => {
@@ -541,6 +562,7 @@ impl RandomDirector {
 impl Director for RandomDirector {
     fn write(&mut self, _view: &View, offered: &[u8]) -> IoDec {
         self.idle = 0;
+        self.now_ms = _view.now_ms;
         if !self.benign {
             if self.chance(self.p.p_fault) {
                 return IoDec::Err;
@@ -613,6 +635,7 @@ impl Director for RandomDirector {
     fn new_transport(&mut self) {
         self.broker.inbuf.clear();
         self.broker.outq.clear();
+        self.broker.hold_until = 0;
         self.broker.connected = false;
         self.broker.closed = false;
         self.conns += 1;
@@ -622,7 +645,20 @@ impl Director for RandomDirector {
 
     fn spin_adv(&mut self, view: &View, n: u32) -> Option<u64> {
         let step = 1u64 << (n.saturating_sub(2)).min(8);
-        Some(view.now_ms + step)
+        let mut to = view.now_ms + step;
+        if !self.broker.outq.is_empty() && self.broker.hold_until > view.now_ms {
+            to = to.min(self.broker.hold_until);
+        }
+        Some(to)
+    }
+
+    fn spin_inject(&mut self, _view: &View, _n: u32) -> Option<Vec<u8>> {
+        // while the client spins on an overdue timer the broker's (slow) answer may arrive
+        self.now_ms = _view.now_ms;
+        if !self.broker.outq.is_empty() && self.now_ms >= self.broker.hold_until && (self.benign || self.chance(0.5)) {
+            return self.broker.outq.pop_front();
+        }
+        None
     }
 
     fn pending(&mut self, view: &View) -> PendDec {
@@ -636,6 +672,18 @@ impl Director for RandomDirector {
         }
         debug_assert!(waiting_read);
         // the client waits for inbound data
+        self.now_ms = view.now_ms;
+        if !self.broker.outq.is_empty() && self.broker.hold_until > view.now_ms {
+            // the broker's answer is slow: time passes first, but never past the deadline the
+            // client asked to be woken at
+            let mut to = self.broker.hold_until;
+            if let Some(w) = view.wakes.first().copied() {
+                if w > view.now_ms {
+                    to = to.min(w);
+                }
+            }
+            return PendDec::Adv(to);
+        }
         if let Some(pkt) = self.broker.outq.pop_front() {
             if !self.benign && self.chance(self.p.p_stale) && !self.broker.sent_acks.is_empty() {
                 // a duplicate of an acknowledgement sent earlier, ahead of the real packet
@@ -706,6 +754,11 @@ impl Director for RandomDirector {
         if self.p.time {
             if let Some(w) = view.wakes.first().copied() {
                 self.idle += 1;
+                if w <= view.now_ms {
+                    // the deadline the client names is already over (it waits for a PINGRESP while
+                    // its next ping is due): real time simply goes on
+                    return PendDec::Adv(view.now_ms + self.rng.gen_range(100..1500));
+                }
                 if self.idle < 6 || self.cur_op == "conn" {
                     let to = match self.rng.gen_range(0..6) {
                         0 if w > view.now_ms + 1 => w - 1,
@@ -796,6 +849,7 @@ impl Director for RandomDirector {
                     props: vec![],
                     corr: None,
                     payload_fails: false,
+                    corr_first: false,
                 });
             }
             self.drain_polls += 1;
@@ -810,6 +864,22 @@ impl Director for RandomDirector {
             }
             if self.p.time && self.chance(0.3) {
                 return TopDec::Adv(view.now_ms + self.rng.gen_range(1..20000));
+            }
+            if self.chance(self.p.p_setid) {
+                // bring the identifier counter (back) onto something in flight, or just before it
+                let mut ids: Vec<u16> = Vec::new();
+                if let Some(snap) = &view.snap {
+                    for key in ["ret", "rel"] {
+                        if let Some(list) = snap[key].as_array() {
+                            ids.extend(list.iter().filter_map(|e| e[0].as_u64()).map(|v| v as u16));
+                        }
+                    }
+                }
+                if !ids.is_empty() {
+                    let id = ids[self.rng.gen_range(0..ids.len())];
+                    let id = if self.chance(0.3) && id > 1 { id - 1 } else { id };
+                    return TopDec::SetNextId(id);
+                }
             }
             self.cur_op = "conn".into();
             self.cur_cancel_safe = true;
@@ -843,4 +913,238 @@ impl Director for RandomDirector {
         .into();
         TopDec::Call(call)
     }
+}
+
+// ------------------------------------------------------------------------------------------------
+// Twin runs (C13 cancellation safety, C15 fragmentation independence)
+
+/// How the variant run of a twin pair differs from its base run.
+#[derive(Clone, Copy, PartialEq, Debug)]
+pub enum TwinKind {
+    /// everything completes at once, inbound packets arrive whole
+    Base,
+    /// C13: pending I/O, partial writes and cancellation at pending points; a cancelled call is
+    /// followed by a continuing call (poll -> poll, anything else -> drive)
+    Cancel,
+    /// C15: reads and writes are fragmented arbitrarily (down to one byte), nothing is cancelled
+    Fragment,
+}
+
+/// Deterministic benign broker + fixed program; only the transport schedule differs between the
+/// runs of a pair.
+pub struct TwinDirector {
+    inner: RandomDirector,
+    program: VecDeque<Step>,
+    kind: TwinKind,
+    continuation: Option<Step>,
+    cur_tag: Vec<u8>,
+    cur_enqueued: bool,
+    cur_index: usize,
+    next_index: usize,
+    /// program indices of requests that were cancelled before they were enqueued
+    pub dropped: std::rc::Rc<std::cell::RefCell<Vec<usize>>>,
+    connected: bool,
+    cancels_left: u32,
+}
+
+impl TwinDirector {
+    pub fn new(seed: u64, program: Vec<Step>, kind: TwinKind, rx: usize,
+               dropped: std::rc::Rc<std::cell::RefCell<Vec<usize>>>) -> Self {
+        let mut inner = RandomDirector::benign_tail(seed, rx);
+        inner.benign = true;
+        inner.probe = false;
+        inner.broker.has_session = false;
+        Self {
+            inner,
+            program: program.into(),
+            kind,
+            continuation: None,
+            cur_tag: vec![],
+            cur_enqueued: false,
+            cur_index: 0,
+            next_index: 0,
+            dropped,
+            connected: false,
+            cancels_left: 6,
+        }
+    }
+
+    fn tag_of(step: &Step) -> Vec<u8> {
+        match step {
+            Step::Publish { topic, .. } => topic.clone(),
+            Step::Subscribe { filters, .. } => filters.first().map(|f| f.topic.clone()).unwrap_or_default(),
+            Step::Unsubscribe { topics, .. } => topics.first().cloned().unwrap_or_default(),
+            _ => vec![],
+        }
+    }
+
+    fn contains(hay: &[u8], needle: &[u8]) -> bool {
+        !needle.is_empty() && hay.windows(needle.len()).any(|w| w == needle)
+    }
+}
+
+impl Director for TwinDirector {
+    fn write(&mut self, _view: &View, offered: &[u8]) -> IoDec {
+        if Self::contains(offered, &self.cur_tag) {
+            self.cur_enqueued = true;
+        }
+        match self.kind {
+            TwinKind::Base => IoDec::Ready(offered.len()),
+            TwinKind::Cancel | TwinKind::Fragment => {
+                if self.kind == TwinKind::Cancel && self.inner.consecutive_pend < 1 && self.inner.chance(0.3) {
+                    self.inner.consecutive_pend += 1;
+                    self.inner.last_pending = 'w';
+                    return IoDec::Pending;
+                }
+                self.inner.consecutive_pend = 0;
+                if offered.len() > 1 && self.inner.chance(0.5) {
+                    let k = if self.inner.chance(0.4) { 1 } else { self.inner.rng.gen_range(1..offered.len()) };
+                    return IoDec::Ready(k);
+                }
+                IoDec::Ready(offered.len())
+            }
+        }
+    }
+
+    fn read(&mut self, view: &View, want: usize) -> IoDec {
+        if view.inbound_avail == 0 {
+            self.inner.last_pending = 'r';
+            return IoDec::Pending;
+        }
+        let max = want.min(view.inbound_avail);
+        match self.kind {
+            TwinKind::Base => IoDec::Ready(max),
+            _ => {
+                if self.kind == TwinKind::Cancel && self.inner.consecutive_pend < 1 && self.inner.chance(0.25) {
+                    self.inner.consecutive_pend += 1;
+                    self.inner.last_pending = 'R';
+                    return IoDec::Pending;
+                }
+                self.inner.consecutive_pend = 0;
+                if max > 1 && self.inner.chance(0.6) {
+                    let k = if self.inner.chance(0.5) { 1 } else { self.inner.rng.gen_range(1..=max) };
+                    return IoDec::Ready(k);
+                }
+                IoDec::Ready(max)
+            }
+        }
+    }
+
+    fn flush(&mut self, _view: &View) -> IoDec {
+        if self.kind == TwinKind::Cancel && self.inner.consecutive_pend < 1 && self.inner.chance(0.25) {
+            self.inner.consecutive_pend += 1;
+            self.inner.last_pending = 'f';
+            return IoDec::Pending;
+        }
+        self.inner.consecutive_pend = 0;
+        IoDec::Ready(0)
+    }
+
+    fn wrote(&mut self, bytes: &[u8]) {
+        self.inner.broker_receive(bytes);
+    }
+
+    fn new_transport(&mut self) {
+        self.inner.new_transport();
+    }
+
+    fn pending(&mut self, view: &View) -> PendDec {
+        let idle_read = self.inner.last_pending == 'r' && view.inbound_avail == 0;
+        if idle_read {
+            // the broker answers in order, one packet per wait
+            if let Some(pkt) = self.inner.broker.outq.pop_front() {
+                return PendDec::Inject(pkt);
+            }
+            // nothing will ever arrive: end this wait (both runs of the pair do the same)
+            return PendDec::Cancel;
+        }
+        if self.kind == TwinKind::Cancel && self.cancels_left > 0 && self.inner.cur_op != "conn"
+            && self.inner.cur_cancel_safe && self.inner.chance(0.45)
+        {
+            self.cancels_left -= 1;
+            if !self.cur_tag.is_empty() && !self.cur_enqueued {
+                self.dropped.borrow_mut().push(self.cur_index);
+            }
+            self.continuation = Some(if self.inner.cur_op == "poll" { Step::Poll {} }
+                                     else if self.inner.cur_op == "recv" { Step::Recv {} }
+                                     else if self.inner.cur_op == "disconnect" { Step::Disconnect { reason: None, props: None } }
+                                     else { Step::Drive {} });
+            return PendDec::Cancel;
+        }
+        PendDec::Resume
+    }
+
+    fn returned(&mut self, op: &str, result: &Value, obs: &Value) {
+        self.inner.returned(op, result, obs);
+        if op == "conn" {
+            self.connected = result["ok"].is_string();
+        }
+    }
+
+    fn top(&mut self, view: &View) -> TopDec {
+        self.inner.last_pending = ' ';
+        if !view.has_conn {
+            if self.connected || self.program.is_empty() {
+                return TopDec::End;
+            }
+            self.inner.cur_op = "conn".into();
+            self.inner.cur_cancel_safe = false;
+            return TopDec::Call(Step::Conn { healthy: true });
+        }
+        let step = match self.continuation.take() {
+            Some(step) => {
+                self.cur_tag.clear();
+                step
+            }
+            None => match self.program.pop_front() {
+                Some(Step::B { bytes }) => {
+                    self.next_index += 1;
+                    return TopDec::Inject(bytes);
+                }
+                Some(step) => {
+                    self.cur_index = self.next_index;
+                    self.next_index += 1;
+                    self.cur_tag = Self::tag_of(&step);
+                    self.cur_enqueued = false;
+                    step
+                }
+                None => return TopDec::End,
+            },
+        };
+        self.inner.cur_cancel_safe = !matches!(&step, Step::Publish { qos: 0, .. });
+        self.inner.cur_op = match &step {
+            Step::Poll {} => "poll",
+            Step::Recv {} => "recv",
+            Step::Disconnect { .. } => "disconnect",
+            _ => "other",
+        }
+        .into();
+        TopDec::Call(step)
+    }
+}
+
+/// A random program for a twin pair: publishes / subscribes / unsubscribes, polls, and
+/// broker-initiated publishes injected at fixed places.
+pub fn twin_program(seed: u64, len: usize, rx: usize) -> Vec<Step> {
+    let mut d = RandomDirector::new(seed, Profile { w_disconnect: 0, w_recv: 0, ..Profile::default() }, rx, false);
+    d.broker.connected = true;
+    let mut out = Vec::new();
+    for _ in 0..len {
+        if d.chance(0.25) {
+            if let Some(pkt) = d.broker_publish() {
+                // the program's broker traffic is fixed; forget the flow bookkeeping
+                d.broker.out_q1.clear();
+                d.broker.out_q2_pub.clear();
+                out.push(Step::B { bytes: pkt });
+                out.push(Step::Poll {});
+                continue;
+            }
+        }
+        out.push(d.gen_call());
+    }
+    // let everything settle
+    for _ in 0..12 {
+        out.push(Step::Poll {});
+    }
+    out
 }
